@@ -290,6 +290,17 @@ func gen(c *ex.Ctx) {
 		return false
 	})
 	fmt.Fprintf(&sb, "\n/-- Condition of the first `if` of the `case 'R'` arm of handleSequence (\"\" = not recognised). -/\ndef cprCond : String := %s\n", ex.LeanStr(cprCond))
+	// 7. the colour requesters: top-level statements of QueryColor / QueryForeground / QueryBackground
+	for _, q := range [][2]string{{"QueryColor", "qc_stmts"}, {"QueryForeground", "qf_stmts"}, {"QueryBackground", "qb_stmts"}} {
+		fd := ex.FindFunc(f, "Vaxis", q[0])
+		var sts []string
+		if fd != nil && fd.Body != nil {
+			for _, st := range fd.Body.List {
+				sts = append(sts, ex.LeanStr(oneLine(c.Src(st))))
+			}
+		}
+		fmt.Fprintf(&sb, "\n/-- %s(): top-level statements in source order (empty = function not found). -/\ndef %s : List String := [\n  %s\n]\n", q[0], q[1], strings.Join(sts, ",\n  "))
+	}
 	sb.WriteString("\nend VaxisModel.Gen.Caps\n")
 	c.Write("Caps.lean", sb.String())
 }
